@@ -354,4 +354,10 @@ func BigFloatToFixedPointCRT(r *ring.Ring, values []*big.Float, scale *big.Float
 			}
 		}
 	}
+
+	for j := range moduli {
+		for i := len(values); i < len(coeffs[j]); i++ {
+			coeffs[j][i] = 0
+		}
+	}
 }
